@@ -443,6 +443,30 @@ def vp(id, prop, expect, patches, note=""):
     V.append({"id": id, "prop": prop, "expect": expect, "note": note, "edits": [], "patch": patches})
 
 NEUTRAL = {
+    'neutral/setQ/n1': ['C01', 'C03', 'C04', 'C10', 'C11'],
+    'neutral/setQ/n10': ['C17'],
+    'neutral/setQ/n11': ['C13', 'C15'],
+    'neutral/setQ/n12': ['C19'],
+    'neutral/setQ/n2': ['C01', 'C03', 'C04', 'C05', 'C10'],
+    'neutral/setQ/n3': ['C04', 'C08'],
+    'neutral/setQ/n4': ['C05', 'C06'],
+    'neutral/setQ/n5': ['C11'],
+    'neutral/setQ/n6': ['C05', 'C10', 'C11'],
+    'neutral/setQ/n7': ['C15'],
+    'neutral/setQ/n8': ['C05', 'C07', 'C14'],
+    'neutral/setQ/n9': ['C11', 'C10'],
+    'neutral/setR/n1': ['C01', 'C03', 'C10'],
+    'neutral/setR/n10': ['C14'],
+    'neutral/setR/n11': ['C13', 'C15'],
+    'neutral/setR/n12': ['C15', 'C05'],
+    'neutral/setR/n2': ['C01', 'C04', 'C05'],
+    'neutral/setR/n3': ['C09', 'C16'],
+    'neutral/setR/n4': ['C11'],
+    'neutral/setR/n5': ['C05', 'C06'],
+    'neutral/setR/n6': ['C12', 'C01'],
+    'neutral/setR/n7': ['C04', 'C08'],
+    'neutral/setR/n8': ['C11', 'C10'],
+    'neutral/setR/n9': ['C17'],
     'neutral/setO/n1': ['C16'],
     'neutral/setO/n11': ['C05', 'C15'],
     'neutral/setO/n12': ['C05', 'C14'],
@@ -463,6 +487,7 @@ NEUTRAL = {
     'neutral/setP/n6': ['C04', 'C08'],
     'neutral/setP/n7': ['C11'],
     'neutral/setP/n8': ['C05', 'C06'],
+    'neutral/setP/n9': ['C05', 'C07'],
     'neutral/setM/n1': ['C02', 'C10'],
     'neutral/setM/n10': ['C03', 'C08'],
     'neutral/setM/n11': ['C05', 'C15'],
@@ -706,6 +731,27 @@ v("c16-put-handler-refuses-empty-value", "C16", "C16.h", [(PUT, "func handlePut(
 v("c17-capool-lazy", "C17", "C17.e", [(TLS, "\tcertPool := x509.NewCertPool()\n", "\tvar certPool *x509.CertPool\n"), (TLS, "\t\t\tcertPool.AddCert(cert)", "\t\t\tif certPool == nil {\n\t\t\t\tcertPool = x509.NewCertPool()\n\t\t\t}\n\t\t\tcertPool.AddCert(cert)")], "agent change C17-r3m1")
 v("c18-writer-readfrom-value-copy", "C18", "C18.g", [(MAINT, "io.Copy(&snapshot.Writer{Sender: srv}, ", "io.Copy(snapshot.Writer{Sender: srv}, "), (SNP, "func (g *Writer) Write(", "func (g Writer) Write(")], "the stream writer handed to io.Copy by value: ReadFrom (pointer receiver) is not in its method set")
 v("c19-merge-remote-decodes-into-field", "C19", "C19.c", [(CLU, "\tremote := &clusterState{}\n\t_ = json.Unmarshal(buf, remote)\n\tc.shardView.update(remote.ShardView)", "\t_ = json.Unmarshal(buf, &c.remote)\n\tc.shardView.update(c.remote.ShardView)"), (CLU, "\tshardView  *shardView\n\tinfoF      getClusterInfo\n}", "\tshardView  *shardView\n\tinfoF      getClusterInfo\n\tremote     clusterState\n}")], "agent change C19-r3m1 without the lock")
+
+# ---- round 6: rules for the fourth-round seeded changes and neutral sets Q, R
+v("c04-createdir-syncs-itself", "C04", "C04.c", [(DIR, "\treturn syncDir(fs, filepath.Dir(dir))\n}\n\n// CleanupNodeDataDir", "\treturn syncDir(fs, dir)\n}\n\n// CleanupNodeDataDir")], "agent change C04-r4m2")
+v("c08-old-close-error-returned", "C08", "C08.c", [(SNAP, "\t\t_ = old.Close()\n", "\t\tif err := old.Close(); err != nil {\n\t\t\ts.fsm.log.Warn(err)\n\t\t\treturn err\n\t\t}\n")], "closing the replaced DB reported as a failed install")
+v("c19-notify-feeds-only-when-room", "C19", "C19.c", [(CLU, "\tc.shardView.update(toShardViewList(c.infoF().ShardInfoList))\n\tselect {\n\tcase c.not <- struct{}{}:\n\tdefault:\n\t}", "\tselect {\n\tcase c.not <- struct{}{}:\n\t\tc.shardView.update(toShardViewList(c.infoF().ShardInfoList))\n\tdefault:\n\t}")], "agent change C19-r4m2")
+v("c19-n-notify-update-after-select", "C19", "none", [(CLU, "\tc.shardView.update(toShardViewList(c.infoF().ShardInfoList))\n\tselect {\n\tcase c.not <- struct{}{}:\n\tdefault:\n\t}", "\tviews := toShardViewList(c.infoF().ShardInfoList)\n\tc.shardView.update(views)\n\tselect {\n\tcase c.not <- struct{}{}:\n\tdefault:\n\t}")])
+v("c18-chunk-4mib", "C18", "C18.h", [(SNP, "const DefaultSnapshotChunkSize = 1024 * 1024", "const DefaultSnapshotChunkSize = 4 * 1024 * 1024")])
+v("c18-n-chunk-2mib", "C18", "none", [(SNP, "const DefaultSnapshotChunkSize = 1024 * 1024", "const DefaultSnapshotChunkSize = 2 * 1024 * 1024")], "still below the default message limit")
+v("c18-loader-buffer-2mib", "C18", "C18.h", [(MGR, "\tmsg := make([]byte, 1024*1024*4)", "\tmsg := make([]byte, 2*1024*1024)")])
+v("c18-zstd-writer-options", "C18", "C18.h", [(ZS, "zstd.NewWriter(io.Discard)", "zstd.NewWriter(io.Discard, zstd.WithWindowSize(1<<16))")])
+v("c17-session-ticket-key-fixed", "C17", "C17.e", [(TLS, "\tcfg.ClientAuth = tls.RequireAndVerifyClientCert", "\tcfg.SetSessionTicketKeys([][32]byte{{1}})\n\tcfg.ClientAuth = tls.RequireAndVerifyClientCert")])
+v("c13-decode-target-hoisted", "C13", "C13.i", [(RAFT, "\t\tvar update Update\n", ""), (RAFT, "\tfor i, ent := range entries {\n", "\tvar update Update\n\tfor i, ent := range entries {\n")], "agent change C13-r4m1 without the json tags")
+v("c16-gzip-reader-error-dropped", "C16", "C16.f", [(GZ, "\t\tnewR, err := gz.NewReader(r)\n\t\tif err != nil {\n\t\t\treturn nil, err\n\t\t}\n", "\t\tnewR, _ := gz.NewReader(r)\n")], "agent change C16-r4m3")
+v("c09-size-cut-unsigned-budget", "C09", "C09.c", [(ITER, "\t\t\tif (uint64(response.SizeVT()) + sf(k.Key, piter.Value())) >= maxRangeSize {", "\t\t\tif sf(k.Key, piter.Value()) >= maxRangeSize-uint64(response.SizeVT()) {")], "agent change C09-r4m2")
+v("c06-prepend-read-error-swallowed", "C06", "C06.d", [(LOGR, "\t\tle, err := readLog(l.LogQuerier, clusterID, prependIndices, maxSize)\n\t\tif err != nil {\n\t\t\treturn nil, err\n\t\t}", "\t\tle, err := readLog(l.LogQuerier, clusterID, prependIndices, maxSize)\n\t\tif err != nil && len(cachedEntries) == 0 {\n\t\t\treturn nil, err\n\t\t}")], "agent change C06-r4m3, prepend side only")
+v("c03-sst-saver-skips-empty-tail", "C03", "C03.e", [(SNAP, "\t// write the remaining KVs into last SST\n\tif err := sstWriter.Close(); err != nil {\n\t\treturn err\n\t}\n\treturn writeLenDelimited(memfile, w)", "\t// write the remaining KVs into last SST\n\tif err := sstWriter.Close(); err != nil {\n\t\treturn err\n\t}\n\tif memfile.Len() == 0 {\n\t\treturn nil\n\t}\n\treturn writeLenDelimited(memfile, w)")], "an empty final table skipped after the writer was closed (the length test comes after Close here, so nothing is lost - but the receiver then never sees a table with the index keys when the DB is empty); kept as a breaking variant of the tail rule")
+v("c14-restore-tolerates-missing-record", "C14", "C14.l", [(MGR, "\ttbl, version, err = m.getTableVersion(name)\n\tif err != nil {\n\t\treturn err\n\t}\n\n\ttbl.ClusterID = recoveryID", "\ttbl, version, err = m.getTableVersion(name)\n\tif err != nil && !errors.Is(err, serrors.ErrTableNotFound) {\n\t\treturn err\n\t}\n\n\ttbl.ClusterID = recoveryID")], "agent change C14-r4m3")
+v("c01-dir-keyed-by-node", "C01", "C01.n", [(FSM, "fmt.Sprintf(\"%s-%d\", tableName, clusterID)", "fmt.Sprintf(\"%s-%d\", tableName, nodeID)")], "agent change C01-r4m1")
+v("c12-wildcard-delete-end-not-incremented", "C12", "C12.d1", [(DEL, "\t\t\tend = incrementRightmostByte(end)\n", "")], "the wildcard end of a range delete is the maximum key itself")
+
+v("c11-reconcile-starts-recovery-id", "C11", "C11.g", [(MGR, "\t\terr = m.startTable(tbl.Name, id)", "\t\t_ = id\n\t\terr = m.startTable(tbl.Name, tbl.RecoverID)")], "a second call site that starts a recovery shard with the table-name listener (K2 is keyed to Restore)")
 
 # the confirmed seeded changes of the sub-agents (section 11.4 of DESIGN.md) as overlays: the same
 # patches tools/run_seeded.sh applies to /repo, here without touching it
